@@ -22,10 +22,10 @@ from gen import c05_xnorth as tr_xnorth
 ID = "C07"
 PROPS_FILES = ["Gama/Props/C07.lean", "Gama/Props/C07Compose.lean", "Gama/Props/C07Revision.lean",
                "Gama/Props/C07ProjectEquations.lean", "Gama/Props/C07PointIdInit.lean", "Gama/Props/C07Mirror.lean",
-               "Gama/Props/C07MirrorSigma.lean", "Gama/Props/C07MirrorLink.lean"]
+               "Gama/Props/C07MirrorSigma.lean", "Gama/Props/C07MirrorLink.lean", "Gama/Props/C07MirrorGap.lean"]
 LEAN_TARGETS = ["Gama.Props.C07", "Gama.Props.C07Compose", "Gama.Props.C07Revision", "Gama.Props.C07ProjectEquations",
                 "Gama.Props.C07PointIdInit", "Gama.Props.C07Mirror", "Gama.Props.C07MirrorSigma",
-                "Gama.Props.C07MirrorLink"]
+                "Gama.Props.C07MirrorLink", "Gama.Props.C07MirrorGap"]
 DRIVERS = ["drv_input"]
 RULE = ("(a) input stream: PointID pairs from a pool of ASCII / digit / leading-zero / white-space / UTF-8 / long "
         "identifiers and random byte strings (distinct by the pair of byte strings, non-trivial = the two normalised "
